@@ -522,56 +522,11 @@ class _Canon(ast.NodeTransformer):
                 if not done_:
                     fu.append(st)
             out = fu
-        # S38 a fresh name for a new container that is stored at once: t = []; P = t; ...t...  ->  P = []; ...P...
-        # (P a subscript / attribute place whose parts are not re-bound, and whose base object is not handed to a call, in the rest
-        # of the block: t and P then denote the same object throughout)
-        k_ = 0
-        while k_ + 1 < len(out):
-            a_, b_ = out[k_], out[k_ + 1]
-            if isinstance(a_, ast.Assign) and len(a_.targets) == 1 and isinstance(a_.targets[0], ast.Name) \
-                    and a_.targets[0].id not in self.ref_names and _builds_container(a_.value) \
-                    and isinstance(b_, ast.Assign) and len(b_.targets) == 1 and isinstance(b_.targets[0], (ast.Subscript, ast.Attribute)) \
-                    and isinstance(b_.value, ast.Name) and b_.value.id == a_.targets[0].id and _pure(b_.targets[0]):
-                import copy as _c8
-                t_ = a_.targets[0].id
-                place = b_.targets[0]
-                rest_ = out[k_ + 2:]
-                parts = {x.id for x in ast.walk(place) if isinstance(x, ast.Name)}
-                stable = True
-                fn_ = getattr(self, 'fn', None)
-                if fn_ is None:
-                    stable = False
-                else:
-                    # the name is bound here and nowhere else, and every read of it lies in the rest of this block
-                    n_st = sum(1 for x in ast.walk(fn_) if isinstance(x, ast.Name) and x.id == t_ and isinstance(x.ctx, (ast.Store, ast.Del)))
-                    n_ld = sum(1 for x in ast.walk(fn_) if isinstance(x, ast.Name) and x.id == t_ and isinstance(x.ctx, ast.Load))
-                    n_in = sum(1 for r_ in rest_ for x in ast.walk(r_) if isinstance(x, ast.Name) and x.id == t_ and isinstance(x.ctx, ast.Load))
-                    if n_st != 1 or n_ld != n_in + 1:
-                        stable = False
-                for r_ in rest_:
-                    for x in ast.walk(r_):
-                        if isinstance(x, ast.Name) and isinstance(x.ctx, (ast.Store, ast.Del)) and (x.id in parts or x.id == t_):
-                            stable = False
-                        if isinstance(x, (ast.Subscript, ast.Attribute)) and isinstance(x.ctx, (ast.Store, ast.Del)) and U(x) == U(place):
-                            stable = False
-                        if isinstance(x, ast.Call) and any(isinstance(g_, ast.Name) and g_.id in parts and g_.id != t_
-                                                           and isinstance(place, ast.Subscript) and g_.id == getattr(place.value, 'id', None)
-                                                           for g_ in list(x.args) + [kw.value for kw in x.keywords]):
-                            stable = False
-                if stable:
-                    class _AL(ast.NodeTransformer):
-                        def visit_Name(self, n_):
-                            if n_.id == t_ and isinstance(n_.ctx, ast.Load):
-                                p2 = _c8.deepcopy(place)
-                                p2.ctx = ast.Load()
-                                return _relocate(p2, n_)
-                            return n_
-                    out[k_:k_ + 2] = [_relocate(ast.Assign(targets=[place], value=a_.value), b_)]
-                    for j_ in range(k_ + 1, len(out)):
-                        out[j_] = _AL().visit(out[j_])
-                    self.steps.append('S38 ' + U(out[k_])[:60])
-                    continue
-            k_ += 1
+        # S38 a fresh name for a new container that is stored at once (also run as a pre-pass, before the names are normalised)
+        fn_ = getattr(self, 'fn', None)
+        if fn_ is not None:
+            for msg in _fold_container_alias_block(fn_, out, self.ref_names):
+                self.steps.append(msg)
         # S10 inert statements that the reference does not have
         def _inert(st_):
             if isinstance(st_, ast.Pass):
@@ -800,6 +755,75 @@ class _Canon(ast.NodeTransformer):
 def refnames_of(q):
     from .core import refnames
     return refnames().get(q, ())
+
+
+def _fold_container_alias_block(fn, out, ref_names):
+    """S38 on one statement list: t = []; P = t; ...t...  ->  P = []; ...P...   (P a subscript / attribute place whose parts are
+    not re-bound, and whose base object is not handed to a call, in the rest of the block; t bound here and nowhere else and read
+    only in the rest of this block: t and P then denote the same object throughout)."""
+    import copy as _c8
+    steps = []
+    k_ = 0
+    while k_ + 1 < len(out):
+        a_, b_ = out[k_], out[k_ + 1]
+        if isinstance(a_, ast.Assign) and len(a_.targets) == 1 and isinstance(a_.targets[0], ast.Name) \
+                and a_.targets[0].id not in ref_names and _builds_container(a_.value) \
+                and isinstance(b_, ast.Assign) and len(b_.targets) == 1 and isinstance(b_.targets[0], (ast.Subscript, ast.Attribute)) \
+                and isinstance(b_.value, ast.Name) and b_.value.id == a_.targets[0].id and _pure(b_.targets[0]):
+            t_ = a_.targets[0].id
+            place = b_.targets[0]
+            rest_ = out[k_ + 2:]
+            parts = {x.id for x in ast.walk(place) if isinstance(x, ast.Name)}
+            n_st = sum(1 for x in ast.walk(fn) if isinstance(x, ast.Name) and x.id == t_ and isinstance(x.ctx, (ast.Store, ast.Del)))
+            n_ld = sum(1 for x in ast.walk(fn) if isinstance(x, ast.Name) and x.id == t_ and isinstance(x.ctx, ast.Load))
+            n_in = sum(1 for r_ in rest_ for x in ast.walk(r_) if isinstance(x, ast.Name) and x.id == t_ and isinstance(x.ctx, ast.Load))
+            stable = n_st == 1 and n_ld == n_in + 1
+            for r_ in rest_:
+                for x in ast.walk(r_):
+                    if isinstance(x, ast.Name) and isinstance(x.ctx, (ast.Store, ast.Del)) and (x.id in parts or x.id == t_):
+                        stable = False
+                    if isinstance(x, (ast.Subscript, ast.Attribute)) and isinstance(x.ctx, (ast.Store, ast.Del)) and U(x) == U(place):
+                        stable = False
+                    if isinstance(x, ast.Call) and isinstance(place, ast.Subscript) and any(
+                            isinstance(g_, ast.Name) and g_.id == getattr(place.value, 'id', None)
+                            for g_ in list(x.args) + [kw.value for kw in x.keywords]):
+                        stable = False
+            if stable:
+                class _AL(ast.NodeTransformer):
+                    def visit_Name(self, n_):
+                        if n_.id == t_ and isinstance(n_.ctx, ast.Load):
+                            p2 = _c8.deepcopy(place)
+                            p2.ctx = ast.Load()
+                            return _relocate(p2, n_)
+                        return n_
+                out[k_:k_ + 2] = [_relocate(ast.Assign(targets=[place], value=a_.value), b_)]
+                for j_ in range(k_ + 1, len(out)):
+                    out[j_] = _AL().visit(out[j_])
+                steps.append('S38 ' + U(out[k_])[:60])
+                continue
+        k_ += 1
+    return steps
+
+
+def fold_container_aliases(rel, module, refnames):
+    """Pre-pass form of S38 (before the local names are normalised: a fresh alias must not be taken for a renamed local)."""
+    ref = refshapes()
+    done = {}
+    for lname, fn in list(module.funcs.items()):
+        q = rel + '::' + lname
+        if q not in ref:
+            continue
+        want = set(refnames.get(q, ()))
+        msgs = []
+        for owner in ast.walk(fn):
+            for field in ('body', 'orelse', 'finalbody'):
+                blk = getattr(owner, field, None)
+                if isinstance(blk, list) and blk and isinstance(blk[0], ast.stmt):
+                    msgs += _fold_container_alias_block(fn, blk, want)
+        if msgs:
+            ast.fix_missing_locations(fn)
+            done[lname] = msgs
+    return done
 
 
 def fold_get_guards(fn, shapes):
